@@ -109,7 +109,7 @@ def check_model(ck, pm: PM):
         ck.ob("G3", fq, "Euler loop" + tag, f.loc(), False, "no loop appending to the returned series was found")
         return
     ck.ob("G3", fq, "loop trip count == step count" + tag, where, pm.loop.n == n and pm.loop.lo.is_zero(),
-          expected=str(n), found=str(pm.loop.n))
+          expected=lambda: str(n), found=lambda: str(pm.loop.n))
     A = pm.cond_field("membrane_area")
     # G2 initial state
     m = pm.series("feed_mass")
@@ -122,7 +122,7 @@ def check_model(ck, pm: PM):
         return
     ck.ob("G2", fq, "feed_mass[0] == initial feed amount" + tag, where,
           len(m.init) == 1 and num(m.init[0]) is not None and num(m.init[0]) == pm.cond_field("initial_feed_amount"),
-          expected=str(pm.cond_field("initial_feed_amount")), found=repr(m.init))
+          expected=lambda: str(pm.cond_field("initial_feed_amount")), found=repr(m.init))
     x0 = x.init[0] if len(x.init) == 1 else None
     p0 = Rat.sym(pm.cond + ".initial_feed_composition.p", ("nonneg", "comp_p"))
     M1 = Rat.sym("self.mixture.first_component.molecular_weight", ("nonneg", "pos"))
@@ -140,7 +140,7 @@ def check_model(ck, pm: PM):
         okT = len(T.init) == 1 and num(T.init[0]) is not None and num(T.init[0]) == T0
     else:
         okT = False
-    ck.ob("G2", fq, "feed_temperature[0] == initial feed temperature" + tag, where, okT, expected=str(T0), found=repr(T)[:160])
+    ck.ob("G2", fq, "feed_temperature[0] == initial feed temperature" + tag, where, okT, expected=lambda: str(T0), found=repr(T)[:160])
     # G4 / G7 append-once, pops, lengths
     for fld in SERIES_FIELDS:
         v = pm.field(fld)
@@ -150,8 +150,8 @@ def check_model(ck, pm: PM):
             ck.ob("G7", fq, "%s look-ahead element popped" % fld + tag, where, v.popped == len(v.init),
                   "%d initial element(s), %d pop(s)" % (len(v.init), v.popped))
         L = pm.length(fld)
-        ck.ob("G7", fq, "len(%s) == step count" % fld + tag, where, L is not None and L == n, expected=str(n),
-              found=str(L) if L is not None else repr(v)[:120])
+        ck.ob("G7", fq, "len(%s) == step count" % fld + tag, where, L is not None and L == n, expected=lambda: str(n),
+              found=lambda: str(L) if L is not None else repr(v)[:120])
     for s in pm.loop.series.values():
         bound = any(pm.field(fld) is s for fld in SERIES_FIELDS)
         if not bound and s.popped:
@@ -171,8 +171,8 @@ def check_model(ck, pm: PM):
               "feed_mass[k+1] does not depend on feed_mass[k]: %s" % (m.per_iter[0],))
         return
     want = mk - (j0 + j1) * A * dt
-    ck.ob("G5", fq, "feed_mass[k+1] == feed_mass[k] - (J1+J2)*A*dt" + tag, where, m1 == want, expected=str(want)[:400],
-          found=str(m1)[:400], sample=True)
+    ck.ob("G5", fq, "feed_mass[k+1] == feed_mass[k] - (J1+J2)*A*dt" + tag, where, m1 == want, expected=lambda: str(want)[:400],
+          found=lambda: str(m1)[:400], sample=True)
     # G6 component recurrence
     xk = comp_p(x.elem_k) if x.elem_k is not None else None
     x1 = comp_p(x.per_iter[0])
@@ -181,7 +181,7 @@ def check_model(ck, pm: PM):
         return
     lhs = x1 * m1
     rhs = xk * mk - j0 * A * dt
-    ck.ob("G6", fq, "x[k+1]*m[k+1] == x[k]*m[k] - J1*A*dt" + tag, where, lhs == rhs, expected=str(rhs)[:400], found=str(lhs)[:400])
+    ck.ob("G6", fq, "x[k+1]*m[k+1] == x[k]*m[k] - J1*A*dt" + tag, where, lhs == rhs, expected=lambda: str(rhs)[:400], found=lambda: str(lhs)[:400])
     ck.ob("G6", fq, "reported feed compositions are mass fractions" + tag, where,
           comp_type(pm, x.per_iter[0]) == "weight" and comp_type(pm, x.elem_k) == "weight",
           found="%s / %s" % (comp_type(pm, x.elem_k), comp_type(pm, x.per_iter[0])))
